@@ -40,6 +40,8 @@ FUNCS = {
     'standardize()': (lambda m: m.standardize(), REARR, False),
     'canonicalize(fix_tautomers=False)': (lambda m: m.canonicalize(fix_tautomers=False), REARR, True),
     'canonicalize()': (lambda m: m.canonicalize(), REARR, False),
+    'canonicalize(keep_kekule=True, fix_tautomers=False)': (lambda m: m.canonicalize(keep_kekule=True, fix_tautomers=False), REARR, True),
+    'canonicalize(keep_kekule=True)': (lambda m: m.canonicalize(keep_kekule=True), REARR, False),
     'fix_resonance()': (lambda m: m.fix_resonance(), REARR, True),
     'neutralize()': (lambda m: m.neutralize(), 'neutralize', True),
     'neutralize(keep_charge=False)': (lambda m: m.neutralize(keep_charge=False), 'neutralize', True),
@@ -102,6 +104,7 @@ def _check_function(acc, fname, m0, src, r, renumber_ok=True, label=''):
     strong = valid and not O.invalid_atoms(m0)
     a = m0.copy()
     acc.n += 1
+    sig = None
     try:
         f(a)
     except Exception as e:
@@ -343,6 +346,37 @@ def decorate(m, group, r):
     return u
 
 
+# charged / protonated heteroaromatics in Kekule and aromatic spelling: standardize_charges moves ring charges without moving hydrogens,
+# which is what the keep_kekule branch of canonicalize has to notice
+AZOLIUM = ['Cn1cc[nH+]c1C', 'C[n+]1cc[nH]c1C', 'c1cc2[nH+]ccn2[nH]1', 'C[n+]1ccn(C)c1', 'c1cc[nH+]cc1', 'c1c[nH+]c[nH]1', 'Cc1[nH]cc[n+]1C',
+           'CN1C=C[NH+]=C1C', 'C[N+]1=CNC=C1', 'C[n+]1ccccc1', 'Cn1cc[n+](C)c1', 'c1ccc2[nH+]c[nH]c2c1', 'Cn1c[nH+]c2ccccc12', 'C[n+]1c[nH]c2ccccc12',
+           'Cc1[nH+]ccn1C', 'c1c[nH]c[nH+]1', 'O=C1C=C[NH+]=CN1', 'Nc1cc[nH+]cc1', 'C[n+]1csc(C)c1', 'c1cn2cc[nH+]c2[nH]1', 'Cn1cc[nH+]c1',
+           '[O-]c1cc[n+](C)cc1', 'C[n+]1ccc(N)cc1', 'Cn1cn[n+](C)c1', 'c1[nH]n[nH+]c1C']
+
+
+def check_keep_kekule(acc, m0, src):
+    """canonicalize(keep_kekule=True) describes the same molecule as canonicalize(): aromatising its result gives the same string"""
+    if not O.weakly_valid(m0):
+        return
+    a, b = m0.copy(), m0.copy()
+    acc.n += 1
+    try:
+        a.canonicalize(keep_kekule=True)
+        b.canonicalize()
+        a.thiele()
+    except Exception as e:
+        if _library_exception(e):
+            acc.v(f'exc:{type(e).__name__}@canonicalize(keep_kekule=True)', f'canonicalize(keep_kekule=True) / thiele raised {type(e).__name__}: {e} '
+                                                                            f'at {_where(e)} on {src}', {'smiles': src, 'function': 'keep-kekule-agrees'}, repr(e))
+            return
+        raise
+    if str(a) != str(b):
+        acc.v('keep-kekule-agrees@canonicalize', f'canonicalize(keep_kekule=True) then thiele gives {a}, canonicalize() gives {b} for {src}',
+              {'smiles': src, 'function': 'keep-kekule-agrees'}, str(a))
+    elif str(m0) != str(b):
+        acc.keys.add(('keep-kekule', str(m0)))
+
+
 def _corpus_worker(item):
     _imports()
     idx, smi, tier = item
@@ -389,6 +423,7 @@ def _corpus_worker(item):
         for fname, (_, _, ren_dec) in FUNCS.items():
             check_function(acc, fname, mol, src, r, renumber_ok=fixed_corpus or ren_dec)
         check_inverse(acc, mol, src)
+        check_keep_kekule(acc, mol, src)
         if fixed_corpus or r.random() < .3:
             check_tautomers(acc, mol, src, r, renumber_ok=fixed_corpus)
     return acc.pack()
@@ -464,6 +499,36 @@ def _rule_worker_(acc, name, i):
         acc.v(f'fixed-point@rule:{name}[{i}]', f'{src}: result {s_c} is rewritten again to {c2} by {[x[2] for x in again][:3]}',
               {'rule': rid, 'instance': str(inst)}, str(c2))
     acc.n += 2
+    # two groups of the same rule on one shared wildcard atom (the rule tables declare such atoms as shareable): both are converted by ONE call
+    # (asserted only when the single instance is itself a fixed point: otherwise the recorded single-instance root cause repeats in both groups)
+    tw = O.twin_instance(q, inst, O.rule_any_atoms().get((name, i), ()), af, bf) if str(q) in fired and str(c2) == s_c else None
+    if tw is not None:
+        twin, af2, bf2 = tw
+        top = max(twin._atoms) + 7          # molecule numbers that differ from the pattern's own numbers (reversed and shifted)
+        ren = {n: top + 3 - n for n in twin._atoms}
+        twin.remap(ren)
+        af2 = {ren[n]: v for n, v in af2.items()}
+        bf2 = [(ren[n], ren[k], o) for n, k, o in bf2]
+        s_t = str(twin)
+        if len({frozenset(mp.values()) for mp in q.get_mapping(twin, automorphism_filter=False)}) >= 2:
+            acc.n += 1
+            acc.keys.add(('rule-twin', name, i))
+            t1 = twin.copy()
+            t1.standardize()
+            t2 = t1.copy()
+            t2.standardize()
+            if str(t2) != str(t1):
+                acc.v(f'twin-fixed-point@rule:{name}[{i}]', f'two groups of rule {rid} on one shared atom ({s_t}): standardize gives {t1}, a second call '
+                                                            f'rewrites it to {t2}', {'rule': rid, 'instance': s_t, 'twin': True}, str(t2))
+            else:
+                exp2 = O.apply_rhs(twin, af2, bf2)
+                ok = str(exp2) == str(t1)
+                if not ok:
+                    exp2.standardize()
+                    ok = str(exp2) == str(t1)
+                if not ok:
+                    acc.v(f'twin-result@rule:{name}[{i}]', f'two groups of rule {rid} on one shared atom ({s_t}): standardize gives {t1}, the declared '
+                                                           f'right-hand side applied to both groups gives {exp2}', {'rule': rid, 'instance': s_t, 'twin': True}, str(t1))
     return acc.pack()
 
 
@@ -509,7 +574,7 @@ def replay(rec):
     _imports()
     key, w = rec['key'], rec['witness'] or {}
     acc = Acc()
-    if key.startswith(('rule-', 'heavy@rule', 'conserve@rule', 'fixed-point@rule', 'exc:')) and 'rule' in w:
+    if key.startswith(('rule-', 'heavy@rule', 'conserve@rule', 'fixed-point@rule', 'twin-', 'exc:')) and 'rule' in w:
         name, i = w['rule'].split(' ')[0].rstrip(']').split('[')
         res = _rule_worker((name, int(i)))
         return not any(v[0] == key for v in res[3])
@@ -538,6 +603,8 @@ def replay(rec):
         for k in range(6):
             if fname in FUNCS:
                 check_function(acc, fname, m, src, r)
+            elif fname == 'keep-kekule-agrees':
+                check_keep_kekule(acc, m, src)
             else:
                 check_inverse(acc, m, src)
                 check_tautomers(acc, m, src, r, True)
@@ -554,7 +621,7 @@ def bounded(run):
     cs = corpus_smiles()
     r = rnd('b14-corpus')
     idx = r.sample(range(len(cs)), n)
-    res = pmap(_corpus_worker, [(i, cs[i], run.tier) for i in idx], chunksize=2)
+    res = pmap(_corpus_worker, [(i, cs[i], run.tier) for i in idx] + [(100000 + j, x, run.tier) for j, x in enumerate(AZOLIUM)], chunksize=2)
     t1 = time.time()
     rules = [(name, i) for name, i, *_ in O.rule_tables()]
     res_r = pmap(_rule_worker, rules, chunksize=4)
@@ -581,7 +648,7 @@ def bounded(run):
     for key, (size, what, witness, native, cnt) in sorted(found.items()):
         run.violation(key, f'{what} [{cnt} inputs of this family; smallest shown]' if cnt > 1 else what, witness=witness, native=native)
     not_inst = sorted(k for k in stats if k.startswith('not-instantiated: '))
-    run.bound(f'corpus: seeded sample of {n} of the 4200 molecules of pach/lipophilicity.csv; each also (a) with one functional-group spelling of '
+    run.bound(f'corpus: seeded sample of {n} of the 4200 molecules of pach/lipophilicity.csv + {len(AZOLIUM)} charged / protonated heteroaromatics; each also (a) with one functional-group spelling of '
               f'{len(O.GROUPS)} (valid and "wrong" spellings the rule tables mention) attached to a seeded CH and (b) mixed with one of '
               f'{len(O.COUNTER_IONS)} counter-ions/acids and (c) as a salt/zwitterion: 1-2 of {len(O.CATION_GROUPS)} ammonium groups attached + 1-2 of {len(O.ANIONS)} anions (balanced and unbalanced, so every branch of neutralize runs); one seeded renumbering per contract; {len(FUNCS)} function variants + explicify/implicify inverse '
               f'+ enumerate_tautomers (first {TAUT_LIMIT} tautomers, molecules <= 40 atoms, all corpus inputs and 30 % of the decorated ones)')
